@@ -147,6 +147,10 @@ class Opt:
         self.value = value
 
 
+class InitList(list):
+    """a braced list of values (array temporary behind std::initializer_list)"""
+
+
 class Closure:
     def __init__(self, node, frame, this=None):
         self.node = node
@@ -1090,6 +1094,8 @@ class Interp:
     def assign(self, loc, v, n):
         ctx = self.ctx
         if isinstance(loc, Loc):
+            if not isinstance(loc, ArrLoc) and isinstance(ctx.store.get(loc.key), Opt) and not isinstance(v, Opt):
+                v = Opt(z3.BoolVal(True), v)  # optional<T> = T
             ctx.write(loc, v)
             return loc
         if hasattr(loc, "assign"):
@@ -1524,6 +1530,14 @@ class Interp:
                 return self.k.string_literal(self, "")
             if len(args) >= 1:
                 return self.k.to_string(self, ctx.rv(args[0]))
+        if (qt.startswith("std::vector<") or qt.startswith("vector<")) and (
+                not args or isinstance(ctx.rv(args[0]), InitList) or args[0] is DEFAULT_ARG):
+            from . import models
+            il = ctx.rv(args[0]) if args and isinstance(ctx.rv(args[0]), InitList) else InitList()
+            data = z3.K(z3.IntSort(), z3.IntVal(0))
+            for i, v in enumerate(il):
+                data = z3.Store(data, i, v)
+            return models.Vec(ctx, "vec_lit", length=z3.IntVal(len(il)), data=data)
         if qt.startswith("std::optional<") or qt.startswith("optional<"):
             if not args:
                 return Opt(z3.BoolVal(False), None)
@@ -1560,6 +1574,8 @@ class Interp:
             return h(self, args, n)
         if (qt.startswith("std::pair<") or qt.startswith("pair<")) and len(args) == 2:
             return Pair(args[0], args[1])
+        if re.search(r"\[\d*\]$", qt):
+            return InitList(args)
         if len(args) == 1:
             return args[0]
         if not args and (is_int_type(qt) or is_time_type(qt)):
@@ -1567,6 +1583,9 @@ class Interp:
         if not args and is_bool_type(qt):
             return z3.BoolVal(False)
         raise Gap("init list of %s (line %s)" % (qt, extract.line_of(n)))
+
+    def e_CXXStdInitializerListExpr(self, n):
+        return self.ctx.rv(self.expr(kids(n)[0]))
 
     def e_CXXScalarValueInitExpr(self, n):
         qt = type_of(n)
